@@ -849,11 +849,22 @@ def generate(repo: Path, outdir: Path) -> dict:
     for _, _, _, ls in sites:
         for _, l in ls:
             link_kinds[l[0]] = link_kinds.get(l[0], 0) + 1
+    # allocation sites of uninitialised memory (round 4, C10)
+    from . import allocs as _allocs
+    try:
+        alloc_sites = _allocs.extract(repo)
+    except _allocs.TranslationError as e:
+        raise TranslationError(str(e))
+    lines += _allocs.lean_lines(alloc_sites)
+    try:
+        lines += _allocs.index_guard_lines(_allocs.extract_index_guards(repo))
+    except _allocs.TranslationError as e:
+        raise TranslationError(str(e))
     lines += ['', 'end Mahotas.Generated', '']
     changed = _write_if_changed(outdir / 'Guards.lean', '\n'.join(lines))
     bare = [k for k, _, acts in actions if 3 in acts]
     return dict(guards_changed=changed, guard_wrappers=len(table), guard_atoms_interpreted=ninterp, guard_atoms_opaque=nopaque,
-                link_sites=len(sites), link_kinds=link_kinds,
+                link_sites=len(sites), link_kinds=link_kinds, alloc_sites=len(alloc_sites),
                 native_entry_points=len(ntable), native_atoms_interpreted=n_interp, native_atoms_opaque_or_parse=n_opaque,
                 bare_null_exits=bare)
 
